@@ -44,8 +44,10 @@ ASSUMPTIONS = [
     "compares names: case-insensitively when mnemonic_transforms is on; 'A:01' is no generated suffix)",
     "read LASFiles: letter-only unit/value/descr tokens; read with mnemonic_case upper and lower (mnemonic_transforms on; "
     "the model is handed the names as the reader leaves them and builds the initial state by appending the curves) and "
-    "with mnemonic_case='preserve' (flag off).  CurvesObs.p_file has no encoding for a read state with the flag off, so "
-    "histories on a preserve-read file are judged by the implementation-side list-model oracle only",
+    "with mnemonic_case='preserve' (flag off).  CurvesObs.p_file has no encoding for a read state with the flag off: a "
+    "preserve-read file is presented to the model as a fresh LASFile followed by one append_curve_item per curve, and "
+    "the expected observation after the j-th of these is what lasio.read gives for the text cut down to its first j "
+    "curves (coq_view)",
     "cross-file item operations (pairs): b.append_curve_item(a.curves[i]), b.insert_curve_item(k, a.curves[i]), "
     "b[key] = a.curves[i], followed by edits of either file.  lasio stores the OBJECT (known finding shared-item: a later "
     "re-suffix / update_curve on one file shows in the other).  The Coq world model (Model/Curves*.v, CurvesObs.v) has "
@@ -647,13 +649,43 @@ def enc_init(init):
     if init == "F":
         return "F"
     # the model is handed the names as the reader leaves them (upper / lower); mnemonic_case="preserve" (flag off) has
-    # no encoding in CurvesObs.p_file: such histories stay on the implementation side (coq_ok)
+    # no encoding in CurvesObs.p_file: coq_view presents such a file as fresh + one append_curve_item per curve
     return FS.join(["R"] + ["/".join([cased(init, m), u, v, d, enc_ids(ids)]) for (m, u, v, d, ids) in init[1]])
 
 
 def coq_ok(inits, ops):
-    """can the Coq world model (value semantics, read = transforms on) be asked about this history?"""
-    return (all(init_case(i) != "preserve" for i in inits) and not any(o[1] in CROSS for o in ops))
+    """can the Coq world model (value semantics) be asked about this history?"""
+    return not any(o[1] in CROSS for o in ops)
+
+
+def coq_view(inits, ops, text):
+    """-> (case input, expected observation text, number of prefix operations) for the Coq world model, or None.
+    CurvesObs.p_file knows two initial states: "F" (fresh, flag off) and "R|..." (read, flag on).  A file read with
+    mnemonic_case="preserve" (flag off) is therefore presented to the model as a FRESH file followed by one
+    append_curve_item per curve of the text; the expected line after the j-th of these prefix operations is the
+    observation of what lasio.read gives for the text cut down to its first j curves (a real read each), the last of
+    them being the initial state of the history itself."""
+    import lasio
+    if not coq_ok(inits, ops):
+        return None
+    if all(init_case(i) != "preserve" for i in inits):
+        return case_input(inits, ops), text, 0
+    lines = text.split("\n")
+    world = [lasio.LASFile() if init_case(i) == "preserve" else make_las(i) for i in inits]
+    pre_ops = []
+    pre_lines = ["|".join(render_obs(x) for x in world)]
+    for t, init in enumerate(inits):
+        if init_case(init) != "preserve":
+            continue
+        for j in range(1, len(init[1]) + 1):
+            world[t] = lasio.read(las_text(init[1][:j]), mnemonic_case="preserve")
+            m, u, v, d, ids = init[1][j - 1]
+            pre_ops.append([str(t), "A", m, u, v, d, enc_ids(ids)])
+            pre_lines.append("ok|" + "|".join(render_obs(x) for x in world))
+    if pre_lines[-1] != "ok|" + lines[0]:
+        return None         # (never seen) the text read twice gives two different states: C10's business
+    return (case_input(["F" if init_case(i) == "preserve" else i for i in inits], pre_ops + ops),
+            "\n".join(pre_lines + lines[1:]), len(pre_ops))
 
 
 def case_input(inits, ops):
@@ -827,7 +859,7 @@ def instantiate(t, target, n, g):
 READ_INIT = ["R", [("A", "m", "", "da", [1, 2]), ("B", "uu", "vb", "db", [3, 4]), ("A", "", "va", "", [5, 6])]]
 READ_INIT2 = ["R", [("", "m", "", "x", [7, 8, 9]), ("C", "", "", "", [4, 5, 6])]]
 # the same mixed-case curve section read with each mnemonic_case: upper -> A:1, B, A:2 (flag on), lower -> a:1, b, a:2
-# (flag on), preserve -> A, b, a (flag off: implementation side only)
+# (flag on), preserve -> A, b, a (flag off: shown to the model as a fresh file plus appends, coq_view)
 MIXED = [("A", "m", "", "da", [1, 2]), ("b", "uu", "vb", "db", [3, 4]), ("a", "", "va", "", [5, 6])]
 INITS = {"fresh": "F", "read": READ_INIT, "read2": READ_INIT2, "read_upper": ["R", MIXED, "upper"],
          "read_lower": ["R", MIXED, "lower"], "read_preserve": ["R", MIXED, "preserve"]}
@@ -993,7 +1025,7 @@ def work_chunk(job):
     alphas = [ALPHABETS[a]() for a in alpha_names]
     inits = [INITS[i] for i in init_names]
     out = {"label": label, "cases": [], "texts": [], "viol": [], "sigs": set(), "inits": inits, "impl_only": 0,
-           "explained": {}}
+           "explained": {}, "npre": 0}
     for rest in itertools.product(*alphas[1:]):
         tm = [alphas[0][first]] + list(rest)
         if pair == "explicit":              # templates carry their target file
@@ -1012,12 +1044,14 @@ def work_chunk(job):
                 if out["explained"][fid] > 3:
                     continue
             out["viol"].append(v)
-        if not coq_ok(inits, ops):
+        cv = coq_view(inits, ops, text)
+        if cv is None:
             out["impl_only"] += 1       # judged by the list-model oracle only (ASSUMPTIONS)
             continue
+        out["npre"] = cv[2]
         if (len(out["cases"]) + first) % SAMPLE_EVERY == 0:
-            out["texts"].append((len(out["cases"]), text))
-        out["cases"].append((case_input(inits, ops), digest(text)))
+            out["texts"].append((len(out["cases"]), cv[1]))
+        out["cases"].append((cv[0], digest(cv[1])))
     return out
 
 
@@ -1067,7 +1101,7 @@ def run(ctx):
                 break
             base = len(cases)
             cases += out["cases"]
-            case_inits += [out["inits"]] * len(out["cases"])
+            case_inits += [(out["inits"], out["npre"])] * len(out["cases"])
             n_impl_only += out["impl_only"]
             for fid, k in out["explained"].items():
                 n_explained[fid] = n_explained.get(fid, 0) + k
@@ -1088,7 +1122,7 @@ def run(ctx):
         if j % 40 == 0:
             texts[len(cases)] = text
         cases.append((case_input(inits, ops), digest(text)))
-        case_inits.append(inits)
+        case_inits.append((inits, 0))
         label = "random<=30 pair" if pair else "random<=30"
         hist[label] = hist.get(label, 0) + 1
         res.oracle_violations += sim.violations[:2]
@@ -1110,9 +1144,12 @@ def run(ctx):
         for v in sim.violations[:2]:
             if v.get("explained"):
                 n_explained[v["explained"]] = n_explained.get(v["explained"], 0) + 1
-        if coq_ok(inits, ops):
-            cases.append((case_input(inits, ops), digest(text)))
-            case_inits.append(inits)
+        cv = coq_view(inits, ops, text)
+        if cv is not None:
+            if j % 40 == 1:
+                texts[len(cases)] = cv[1]
+            cases.append((cv[0], digest(cv[1])))
+            case_inits.append((inits, cv[2]))
         else:
             n_impl_only += 1
     res.cases = len(cases) + n_impl_only
@@ -1132,13 +1169,14 @@ def run(ctx):
         full = [(cases[i][0], texts[i]) for i in sample]
         for i in mism[:100]:
             if i not in texts:
-                ops = decode_case(cases[i][0])[1]
-                full.append((cases[i][0], run_history(case_inits[i], ops, oracle=False)[1]))
+                inits_i, npre = case_inits[i]
+                ops = decode_case(cases[i][0])[1][npre:]
+                full.append((cases[i][0], coq_view(inits_i, ops, run_history(inits_i, ops, oracle=False)[1])[1]))
                 sample.append(i)
         m2, err2 = lib.run_coq_cases("c14f", [], RUN_CASE, full, shard=8)
         res.corr_error = res.corr_error or err2
         for i in sorted(set(mism) | {sample[i] for i in m2}):
-            res.mismatches.append({"inits": case_inits[i], "ops": decode_case(cases[i][0])[1]})
+            res.mismatches.append({"inits": case_inits[i][0], "ops": decode_case(cases[i][0])[1][case_inits[i][1]:]})
         res.extra["full_text_cases"] = len(full)
     else:
         res.corr_error = "model not built"
@@ -1157,7 +1195,7 @@ def run(ctx):
                 "duplicates, truncate on/off.  Alphabets: full %d templates, mid %d, small %d, micro %d, tiny %d.  "
                 "EXHAUSTIVE (every history whose i-th operation is drawn from the i-th alphabet): %s.  SAMPLED: %d random "
                 "histories up to length 30 on one LASFile and on pairs (fresh and read with mnemonic_case upper / lower / "
-                "preserve), of which %d (cross-file item operations, mnemonic_case='preserve') are judged by the list-model "
+                "preserve), of which %d (cross-file item operations) are judged by the list-model "
                 "oracle only.  The observation of every LASFile "
                 "is compared after every step.  distinct_nontrivial = distinct world states (original/session names, "
                 "array lengths, flag of every LASFile) reached after some step"
